@@ -15,7 +15,7 @@ import z3
 from . import ops
 from .ops import LAM
 from .ops import Unsupported
-from .values import (Sym, SChar, SSeq, SSet, SDict, RandVal, Choice, Obj, ExcVal, Opaque, I, R, B, AI, AR, AB, is_symbolic)
+from .values import (Sym, SChar, SSeq, SSet, SDict, ASet, RandVal, Choice, Obj, ExcVal, Opaque, I, R, B, AI, AR, AB, is_symbolic)
 from .speclib import SumI, SumR
 
 
@@ -53,7 +53,8 @@ def m_range(it, fr, *a):
     return RangeVal(a[0], a[1], a[2])
 
 
-def m_arange(it, fr, *a):
+def m_arange(it, fr, *a, **k):
+    it.trusted_used.add('numpy.arange(a, b[, step]) = a, a+step, ... below b')
     r = m_range(it, fr, *a)
     r.nd = True
     return r
@@ -61,10 +62,14 @@ def m_arange(it, fr, *a):
 
 def range_to_seq(r, kind='nd'):
     RangeVal, EnumVal, Raised = _interp_types()
-    if r.step != 1:
-        raise Unsupported('range step')
     j = z3.Int('j!rg')
     lo, hi = ops.z3int(r.lo), ops.z3int(r.hi)
+    if not (isinstance(r.step, int) and r.step == 1):
+        st = ops.z3int(r.step)
+        ops._raise_if(st == 0, 'ZeroDivisionError')
+        # positive step (the only use): ceil((hi - lo) / step) elements lo + j*step
+        n = z3.If(hi > lo, (hi - lo + st - 1) / st, 0)
+        return SSeq(LAM(j, lo + j * st), 0, z3.simplify(n), kind, 'int')
     return SSeq(LAM(j, j + lo), 0, z3.simplify(z3.If(hi > lo, hi - lo, 0)), kind, 'int')
 
 
@@ -500,6 +505,18 @@ def m_product(it, fr, *seqs, repeat=1):
 def value_method(it, fr, base, name, args, kwargs):
     """returns (result, new_base, mutated)"""
     RangeVal, EnumVal, Raised = _interp_types()
+    if isinstance(base, ASet):
+        if name == 'add':
+            d = it.fresh('added', 'int')
+            it.assume(z3.And(d.e >= 0, d.e <= 1))
+            return None, ASet(z3.simplify(base.card + d.e)), True
+        raise Unsupported('method %s on abstract set' % name)
+    if isinstance(base, (set, frozenset)) and name == 'add' and args and isinstance(args[0], (SSeq, SChar)):
+        # a symbolic string enters a (so far concrete) set: from here on only the cardinality is tracked
+        it.trusted_used.add('set of symbolic strings abstracted to its cardinality')
+        d = it.fresh('added', 'int')
+        it.assume(z3.And(d.e >= 0, d.e <= 1))
+        return None, ASet(z3.simplify(z3.IntVal(len(base)) + d.e)), True
     if isinstance(base, RandVal):
         if name == 'shuffle':
             raise Unsupported('shuffle handled by the interpreter')
